@@ -96,6 +96,7 @@ type c05Node struct {
 	sink  *memSink
 	hookN *int
 	sampN *int // sampling-decision hook calls (sampler nodes)
+	core  zapcore.Core
 }
 
 type c05Builder struct {
@@ -191,6 +192,11 @@ func (n *c05Node) deliver(l zapcore.Level, reached bool, leaves, hooks, samp map
 var c05JSONCfg = zapcore.EncoderConfig{MessageKey: "m", LevelKey: "l", EncodeLevel: zapcore.LowercaseLevelEncoder}
 
 func (n *c05Node) build(t *rapid.T) zapcore.Core {
+	n.core = n.build0(t)
+	return n.core
+}
+
+func (n *c05Node) build0(t *rapid.T) zapcore.Core {
 	switch n.kind {
 	case "obs":
 		c, logs := observer.New(n.en.enabler())
@@ -335,6 +341,21 @@ func propC05(t *rapid.T) {
 		if got := lgr.lg.Level(); !ok(got) {
 			t.Fatalf("Logger.Level()=%d, want the least enabled level %d\nlogger %s\nhistory: %s", got, leastIn, lgr.desc, strings.Join(history, " ; "))
 		}
+		// a tee enables whatever any branch enables: its reported minimum is never above a branch's
+		lgr.root.walk(func(n *c05Node) {
+			if n.kind != "tee" || n.core == nil {
+				return
+			}
+			lt := zapcore.LevelOf(n.core)
+			for _, k := range n.kids {
+				if k.core == nil {
+					continue
+				}
+				if lk := zapcore.LevelOf(k.core); lk < zapcore.InvalidLevel && (lt >= zapcore.InvalidLevel || lt > lk) {
+					t.Fatalf("LevelOf(tee #%d)=%d although its branch #%d reports %d (a tee enables every level one of its branches enables)\nhistory: %s", n.id, lt, k.id, lk, strings.Join(history, " ; "))
+				}
+			}
+		})
 		if got := zapcore.LevelOf(c); !ok(got) {
 			t.Fatalf("LevelOf(core)=%d, want the least enabled level %d\nhistory: %s", got, leastIn, strings.Join(history, " ; "))
 		}
